@@ -67,9 +67,26 @@ def abi_tag(a: dict) -> str:
     return f"cp{a['major']}{a['minor']}{a['flag']}"
 
 
-def build_envspec(rp_shape: dict, setting: dict, grid: list[str], plat=None):
+def _reversed_text(rp_shape: dict, grid: list[str]) -> str | None:
+    """The same requires_python as a user may write it: upper bound FIRST in every two-sided range (the parser then
+    intersects the clauses in that order), `||` between ranges.  None when nothing would differ from text_of()."""
+    if rp_shape["k"] not in ("range", "union") or not any(r["lo"] and r["hi"] for r in rp_shape["rs"]):
+        return None
+    parts = []
+    for r in rp_shape["rs"]:
+        cl = spec_iface.range_text(r, grid).split(",")
+        parts.append(",".join(reversed(cl)))
+    return "||".join(parts)
+
+
+def build_envspec(rp_shape: dict, setting: dict, grid: list[str], plat=None, parsed=False):
     from dep_logic.tags import EnvSpec, Implementation
-    rp = spec_iface.build(rp_shape, grid)
+    txt = _reversed_text(rp_shape, grid) if parsed else None
+    if txt is not None:
+        from dep_logic.specifiers import parse_version_specifier
+        rp = parse_version_specifier(txt)
+    else:
+        rp = spec_iface.build(rp_shape, grid)
     impl = None
     if setting["impl"]:
         impl = Implementation({"cp": "cpython", "pp": "pypy", "pt": "pyston"}[setting["impl"]], bool(setting["ft"] == 1))
@@ -96,13 +113,14 @@ def _decide_chunk(args):
     rng = random.Random(seed)
     fails = []
     n = 0
-    for st in states:
+    for k, st in enumerate(states):
         try:
-            es = build_envspec(st["rp"], st["set"], grid)
+            # every other requires_python is obtained by PARSING its text (upper bounds first), the rest by the constructors
+            es = build_envspec(st["rp"], st["set"], grid, parsed=(k % 2 == 1))
         except Exception as e:  # noqa: BLE001
             fails.append((f"C08:build:{type(e).__name__}", repr(e), {"rp": st["rp"], "set": st["set"]}))
             continue
-        rp_txt = spec_iface.text_of(st["rp"], grid)
+        rp_txt = (k % 2 == 1 and _reversed_text(st["rp"], grid)) or spec_iface.text_of(st["rp"], grid)
         real = []
         scored = []
         for i, (t, a) in enumerate(pairs):
@@ -212,9 +230,9 @@ def run_c08(rep: Report, tier: str) -> None:
 def _widen_chunk(args):
     states, pairs, grid = args
     fails, n = [], 0
-    for st in states:
-        a = build_envspec(st["rp"], st["set"], grid)
-        b = build_envspec(st["rp2"], st["set"], grid)
+    for k, st in enumerate(states):
+        a = build_envspec(st["rp"], st["set"], grid, parsed=(k % 2 == 1))
+        b = build_envspec(st["rp2"], st["set"], grid, parsed=(k % 2 == 1))
         for (t, ab) in pairs:
             n += 1
             try:
